@@ -204,6 +204,28 @@ def generate(g, h):
     g.nat('PF_CMD_SKIP', lambda: int(_slice_bounds(spc.func.value)[0]))
     mods = [n for n in _binop_mod(fc)]
     g.strlist('PF_CMD_REPLIES', lambda: [n.left.value for n in mods])
+    # exactly one reply line per command: where the writes sit (try body / except handler), and no loop
+    def fc_writes():
+        out = []
+
+        def walk(node, ctxs):
+            for field, val in ast.iter_fields(node):
+                kids = val if isinstance(val, list) else [val]
+                for k in kids:
+                    if not isinstance(k, ast.AST):
+                        continue
+                    c = ctxs
+                    if isinstance(node, ast.Try):
+                        c = ctxs + [{'body': 'try', 'handlers': 'except', 'orelse': 'else', 'finalbody': 'finally'}[field]]
+                    elif isinstance(node, (ast.For, ast.While)):
+                        c = ctxs + ['loop']
+                    if isinstance(k, ast.Call) and h.callname(k) == 'write':
+                        out.append('/'.join(c) + ':' + _src(k))
+                    walk(k, c)
+        walk(fc, [])
+        return out
+    g.strlist('PF_CMD_WRITES', fc_writes)
+    g.nat('PF_CMD_LOOPS', lambda: len([n for n in ast.walk(fc) if isinstance(n, (ast.For, ast.While))]))
     g.strlist('PF_QUERY_NAT_PARAMS', lambda: [a.arg for a in h.func(pf, 'Generic.query_nat').args.args])
     g.nat('PF_OUT', lambda: h.int_of(_one(
         [n.value for n in h.func(pf, 'Generic').body if isinstance(n, ast.Assign) and
